@@ -14,7 +14,7 @@ LEVEL = "model_checking"
 RULE = ("all ordered lists of <=2 (thorough: <=3) distinct strings over a 17-string alphabet and of integers over {-2,-1,0,1,2,10}, x null "
         "member x default (none / first / non-member) x inline vs referenced x Enum classes vs literal_enums; consts over 10 values x "
         "required x typed/untyped; a const as a member of a oneOf/anyOf with each of 8 partner kinds, both orders; inputs: every listed value, null, and a probe set of values not listed (case variants, trimmed, "
-        "suffixed, other type); non-trivial = the holder model was generated and every listed value exercised; enums / consts used by an operation: as JSON response and (string enums / consts) as text/plain and text/html response (alone / next to 204, empty 404, default) and as query / header parameter, both enum styles, inline and by reference: every listed value is accepted / transmitted as written, unlisted replies are refused")
+        "suffixed, other type); non-trivial = the holder model was generated and every listed value exercised; value lists that repeat a value; enums / consts used by an operation: as JSON response and (string enums / consts) as text/plain and text/html response (alone / next to 204, empty 404, default) and as query / header parameter, both enum styles, inline and by reference: every listed value is accepted / transmitted as written, unlisted replies are refused")
 FLOOR = 0.4
 ASSUMPTIONS = ["the pinned uncaught ValueError('Duplicate key ...') counts as 'reported' for C14 (it is C06's business as a crash)"]
 
@@ -104,6 +104,13 @@ def cases(tier):
                                 dv = "none" if d == "none" else (values[0] if d == "first" else ("zz-not-listed" if typ == "string" else 77))
                                 yield {"labels": [f"values={list(values)!r}"] + (["null"] if null else []) + [f"style={style}"] + (["ref"] if ref else []) + ([f"default={d}"] if d != "none" else []),
                                        "payload": {"mode": "enum", "type": typ, "values": list(values), "null": null, "style": style, "ref": ref, "default": d, "dv": dv}}
+    # value lists that repeat a value (the enumeration admits the SET of listed values, nothing more: in particular not null)
+    for typ, (a, b) in (("string", STRS[:2]), ("integer", INTS[:2])):
+        for values in ([a, a], [a, b, a], [a, a, b], [b, a, a], [a, b, b, a]):
+            for style in ("enum", "literal"):
+                for ref in (False, True):
+                    yield {"labels": [f"values={values!r}", "repeated-value", f"style={style}"] + (["ref"] if ref else []),
+                           "payload": {"mode": "enum", "type": typ, "values": list(values), "null": False, "style": style, "ref": ref, "default": "none", "dv": "none"}}
     # two enums that derive the same class name (a component and an inline enum): reported, or both keep exactly their values
     clash_lists = [["OPEN", "CLOSED"], ["open", "closed"], ["Open", "closed"], ["a", "b"], ["c", "d"], ["a", "b", "c"], ["b", "a"]]
     for x, y in itertools.permutations(clash_lists, 2):
@@ -203,8 +210,9 @@ def _run_enum(p):
                 dcs = [diffclass([v, o]) for o in others] if isinstance(v, str) else []
                 dc = next((d for d in dcs if d != "other"), "other") if dcs else "-"
                 viol.append({"oracle": "member-count", "site": style, "key": f"{vclass(v)}/{dc}", "detail": f"value {v!r} of {values!r} has {n} members with that wire value; members: {wire_values!r}"})
-        if len(wire_values) != len(values):
-            viol.append({"oracle": "member-total", "site": style, "key": f"{len(values)}->{len(wire_values)}", "detail": f"{len(values)} values {values!r} but {len(wire_values)} members {wire_values!r}"})
+        distinct = [v for i, v in enumerate(values) if not any(type(v) is type(o) and v == o for o in values[:i])]      # a repeated value is listed once
+        if len(wire_values) != len(distinct):
+            viol.append({"oracle": "member-total", "site": style, "key": f"{len(distinct)}->{len(wire_values)}", "detail": f"{len(distinct)} distinct values {values!r} but {len(wire_values)} members {wire_values!r}"})
         # decode / encode of every listed value
         for v in values:
             try:
